@@ -374,7 +374,7 @@ def sdelta_of(delta, t1, t2, ids, t2paths=None):
 # observables
 # ---------------------------------------------------------------------------
 
-ERRS = (OverflowError, ZeroDivisionError, AttributeError, TypeError)
+ERRS = (OverflowError, ZeroDivisionError, AttributeError)
 
 
 def obs_exc(e):
@@ -770,7 +770,8 @@ def gen_pairs(ctx):
             (DT(2020, 1, 1, 5), D(2020, 1, 1)), (DT(2020, 1, 1), DT(2021, 1, 1)), (T(1, 1, 1), T(2, 1, 1)), (T(0, 0, 0, 1), T(0, 0, 0, 2)),
             (TD(1), TD(2)), (TD(1), TD(-1)), (TD(1), 86400), (1e308, 1.7e308), (2 ** 53, 2 ** 53 + 1), (10 ** 400, 1), (0.1, 0.3), (5, 0),
             ([1, 2, 3, 4], {1, 2, 3, 4}), ("a", ["a"]), ([1.5, 2], [1.5, 3.5]), ([1, [2, [3, [4]]]], [1, [2, [3, [5]]]]),
-            ({}, {"x": {"iterable_items_added_at_indexes": 5}}), ({}, {"x": {b"k": 1}}),
+            ({}, {"x": {"iterable_items_added_at_indexes": 5}}), ({}, {"x": {b"k": 1}}), ({}, {"x": {b"_k": 1, b"": [2]}}),
+            ({}, {"a": {"old_value": 1, "x": 2}}), ({"a": {"old_value": 1}}, {"a": {"old_value": 2, "new_value": None}}),
             ([D(2020, 1, 1), 1], [D(2020, 1, 2), 1]), ([Decimal("1.1")], [Decimal("1.2"), None])]
     for a, b in hand:
         out.append((a, b, "hand"))
@@ -825,8 +826,10 @@ def gen_pairs(ctx):
 
 
 def has_crash_key(v):
+    """a dict key named like one of the two delta keys whose values _get_item_length dedupes (bytes keys crashed too
+    until 3adbf05)"""
     if isinstance(v, dict):
-        return any(isinstance(k, bytes) or k in ("iterable_items_added_at_indexes", "iterable_items_removed_at_indexes") or has_crash_key(x)
+        return any((isinstance(k, str) and k in ("iterable_items_added_at_indexes", "iterable_items_removed_at_indexes")) or has_crash_key(x)
                    for k, x in v.items())
     if isinstance(v, (list, tuple)):
         return any(has_crash_key(x) for x in v)
@@ -1210,7 +1213,7 @@ def m_opcodes_hide_operations(case):
 
 
 def m_item_length_crash(case):
-    if case.get("kind") != "deep_distance" or case.get("exception") not in ("AttributeError", "TypeError"):
+    if case.get("kind") != "deep_distance" or case.get("exception") != "AttributeError":
         return False
     return has_crash_key(_ev(case["t1"])) or has_crash_key(_ev(case["t2"]))
 
@@ -1246,7 +1249,7 @@ MATCHERS = {
     "C19-K18-zero-for-nonempty-diff": m_zero_for_nonempty,
     "C19-K19-time-microseconds-ignored": m_time_microseconds,
     "C19-K20-date-vs-datetime": m_date_vs_datetime,
-    "C19-K21-item-length-crash-on-keys": m_item_length_crash,
+    "C19-K21-item-length-crash-on-dedupe-key-name": m_item_length_crash,
     "C19-K22-numpy-zero": m_numpy_zero,
     "C19-K23-zero-for-equal-numbers-of-different-type": m_equal_numbers_of_different_type,
     "C19-K24-opcodes-hide-operations": m_opcodes_hide_operations,
@@ -1270,6 +1273,8 @@ def witnesses(ctx):
         ("C19_positive_if_nonempty_refuted", lambda: DeepDiff([1], [1, None], get_deep_distance=True).get("deep_distance", 0) == 0
          and "iterable_item_added" in DeepDiff([1], [1, None])),
         ("K24 (operations hidden in _iterable_opcodes)", lambda: DeepDiff([1, 2, 3, 5, 6], [1, 2, 4, 3, 5, 6, 7], get_deep_distance=True).get("deep_distance", 0) == 0),
+        ("K21 (AttributeError on a user key named like a delta key)",
+         lambda: isinstance(call(lambda: DeepDiff({}, {"x": {"iterable_items_added_at_indexes": 5}}, get_deep_distance=True))[1], AttributeError)),
         ("C19_time_zero_refuted", lambda: get_numeric_types_distance(datetime.time(0, 0, 0, 1), datetime.time(0, 0, 0, 2), 1.0) == 0),
     ]
     replayed = []
